@@ -222,6 +222,15 @@ func withinQuantisation(want, got []world.Op, hi []bool) string {
 		}
 		w2, g2 := w, g
 		w2.F, g2.F = [6]float32{}, [6]float32{}
+		if w.K == world.KReset && g.K == world.KReset {
+			// the viewBox is never quantised to 1/64: off the lattice it travels in
+			// the 4-byte form
+			if !rel(float64(w.VB.MinX), float64(g.VB.MinX)) || !rel(float64(w.VB.MinY), float64(g.VB.MinY)) ||
+				!rel(float64(w.VB.MaxX), float64(g.VB.MaxX)) || !rel(float64(w.VB.MaxY), float64(g.VB.MaxY)) {
+				return fmt.Sprintf("call #%d: viewBox %v decoded as %v (beyond the rounding of the 4-byte number form)", i, w.VB, g.VB)
+			}
+			w2.VB, g2.VB = ivg.ViewBox{}, ivg.ViewBox{}
+		}
 		if !world.SameCall(&w2, &g2) {
 			return fmt.Sprintf("call #%d was %s, decoded as %s", i, w.String(), g.String())
 		}
